@@ -140,8 +140,9 @@ def write_evidence(pid, mod, tier, seed, total, wall, n_jobs, new_viol, known_hi
         "wall_s": round(wall, 2),
         "violations": int(len(new_viol)),
     }
-    out = VERIF / "evidence" / (pid + ".json")
-    out.parent.mkdir(exist_ok=True)
+    evdir = "evidence" if os.environ.get("VERIF_REPO", "/repo") == "/repo" else ".scratch/evidence-other-tree"
+    out = VERIF / evdir / (pid + ".json")
+    out.parent.mkdir(parents=True, exist_ok=True)
     tmp = out.with_suffix(".json.tmp")
     tmp.write_text(json.dumps(ev, indent=1, sort_keys=False) + "\n")
     os.replace(tmp, out)
